@@ -1,6 +1,7 @@
 //! Bounded stand-in / failing-input search for unit U7 (pattern parser) — NOT a proof.
 //! Bound: every token sequence of length <= 5 over an 11-token alphabet, for one language
 //! host: src/parse.rs
+//! functions: Pattern::parse RecExpr::parse is_term parse_nested_syntax_elem parse_pattern parse_pattern_nosubst pattern_to_re
 //! (var/app/lam/number payload); plus every prefix of 14 valid, malformed and non-ASCII texts through
 //! Pattern::parse / RecExpr::parse (this also stands in for tokenize / crop_ident / ident_char when an edit moves
 //! them outside Verus's subset).
@@ -90,6 +91,26 @@ pub fn run(only: &[String]) -> Vec<String> {
                     Err(_) => { count[4] += 1; fails.push(format!("FAIL {} C18:RecExpr_parse.arity text={:?} -> panic", re_label, s)); }
                     Ok(Some(false)) => { count[4] += 1; fails.push(format!("FAIL {} C18:RecExpr_parse.arity text={:?} -> node with wrong number of children", re_label, s)); }
                     _ => {}
+                }
+            }
+        }
+    }
+    // print -> parse round trip on patterns and terms, including chained and nested substitutions
+    let rt_texts = ["?b[(var $x) := ?t][(var $y) := ?u]", "(app ?b[?x := ?t][?y := ?u] ?c)", "?b[?x := ?t][?y := ?u][?z := ?w]", "?b[?x[?p := ?q] := ?t[?r := ?s]][?y := ?u]",
+                    "(lam $x (app (var $x) ?y))[(var $z) := (lam $w (var $w))]", "(app (lam $x (var $x)) 7)", "(lam $x (lam $y (app (var $x) (var $y))))", "?x", "(app ?a[?b := ?c] ?d[?e := ?f][?g := ?h])"];
+    if (want("Pattern::parse") || want("parse_pattern") || want("parse_pattern_nosubst") || tok_label.is_some()) && count[3] < 3 {
+        let label = only.iter().find(|x| ["parse_pattern", "parse_pattern_nosubst"].contains(&x.as_str())).cloned().or(tok_label.clone()).unwrap_or("Pattern::parse".to_string());
+        for t in rt_texts {
+            verif_case(format!("round trip of {:?}", t));
+            match std::panic::catch_unwind(|| Pattern::<BL>::parse(t)) {
+                Err(_) => { count[3] += 1; fails.push(format!("FAIL {} C18:Pattern_parse.roundtrip text={:?} -> panic", label, t)); }
+                Ok(Err(e)) => { count[3] += 1; fails.push(format!("FAIL {} C18:Pattern_parse.roundtrip text={:?} (a well-formed pattern) -> {:?}", label, t, e)); }
+                Ok(Ok(p)) => {
+                    let printed = p.to_string();
+                    match std::panic::catch_unwind(|| Pattern::<BL>::parse(&printed)) {
+                        Ok(Ok(p2)) if p2 == p => {}
+                        other => { count[3] += 1; fails.push(format!("FAIL {} C18:Pattern_parse.roundtrip text={:?} prints as {:?}, which parses back to {:?}", label, t, printed, other.map(|r| r.map(|p| p.to_string())).ok())); }
+                    }
                 }
             }
         }
